@@ -185,6 +185,9 @@ type ocase struct {
 	CancelAt  int    `json:"cancel_after,omitempty"` // -1: never
 	InCb      bool   `json:"cancel_inside_callback,omitempty"`
 	NObs      int    `json:"observations"`
+	// CancelReply: what the peer does with the deregistration GET: "" = 2.05, "refused" = 4.04, "silent" = nothing
+	// (the Cancel call then ends with its context). Whatever Cancel returns, nothing is delivered after it returned.
+	CancelReply string `json:"cancel_reply,omitempty"`
 }
 
 type cbEvent struct {
@@ -280,7 +283,13 @@ func runStream(rec *vr.Rec, c ocase) {
 			for ; seen < len(msgs); seen++ {
 				m := msgs[seen]
 				if v, has := m.GetUint(6); m.Code == 1 && has && v == 1 {
-					e.reply(m, 0x45, nil, "cancelled")
+					switch c.CancelReply {
+					case "refused":
+						e.reply(m, 0x84, nil, "")
+					case "silent":
+					default:
+						e.reply(m, 0x45, nil, "cancelled")
+					}
 				}
 			}
 			time.Sleep(50 * time.Microsecond)
@@ -296,12 +305,22 @@ func runStream(rec *vr.Rec, c ocase) {
 				return
 			}
 			for _, o := range obs {
-				ctx, cancel := context.WithTimeout(context.Background(), 20*time.Second)
+				cto := 20 * time.Second
+				if c.CancelReply == "silent" {
+					cto = 40 * time.Millisecond
+				}
+				ctx, cancel := context.WithTimeout(context.Background(), cto)
 				err := o.h.Cancel(ctx)
 				cancel()
-				if err != nil {
+				if err != nil && c.CancelReply == "" {
 					rec.Violation("C08/"+c.Kind+"/cancel-failed", err.Error(), c)
 					return
+				}
+				if c.CancelReply != "" {
+					rec.Count("cancel_with_failing_deregistration_"+c.CancelReply, 1)
+					if err != nil {
+						rec.Count("cancel_returned_error", 1)
+					}
 				}
 				o.cancel.Store(true)
 			}
@@ -558,6 +577,11 @@ func TestRun(t *testing.T) {
 		for pos := 0; pos <= len(st); pos++ {
 			cases = append(cases, ocase{Kind: kind, First: note{1, true}, Stream: st, CancelAt: pos, NObs: 1 + pos%3})
 		}
+		for pos := 0; pos <= len(st); pos += 2 {
+			for _, cr := range []string{"refused", "silent"} {
+				cases = append(cases, ocase{Kind: kind, First: note{1, true}, Stream: st, CancelAt: pos, NObs: 1 + pos%2, CancelReply: cr})
+			}
+		}
 		for pos := 1; pos <= 5; pos++ { // position 0 is the first response: the handle does not exist yet
 			cases = append(cases, ocase{Kind: kind, First: note{1, true}, Stream: st, CancelAt: pos, InCb: true, NObs: 1})
 		}
@@ -600,7 +624,7 @@ func TestRun(t *testing.T) {
 				}
 				c := cases[i]
 				runStream(rec, c)
-				sig := fmt.Sprintf("%s|%v|%v|%d|%v|%d|", c.Kind, c.Blockwise, c.First, c.CancelAt, c.InCb, c.NObs)
+				sig := fmt.Sprintf("%s|%v|%v|%d|%v|%d|%s|", c.Kind, c.Blockwise, c.First, c.CancelAt, c.InCb, c.NObs, c.CancelReply)
 				for _, n := range c.Stream {
 					sig += fmt.Sprintf("%d%v,", n.Seq, n.HasSeq)
 				}
